@@ -27,6 +27,8 @@ type vfBackend struct {
 	closed  chan struct{}
 	isClosed bool
 	writeErr error
+	movedAt  int    // index of the reply that is a MOVED redirection instead of +OK (-1: none)
+	movedTo  string // the node it names
 }
 
 const vfReqLen = 14 // *1\r\n$4\r\nping\r\n
@@ -34,7 +36,7 @@ const vfReqLen = 14 // *1\r\n$4\r\nping\r\n
 var vfErrReset = errors.New("vf: connection reset by peer")
 
 func vfNewBackend() *vfBackend {
-	return &vfBackend{failWriteAt: -1, writeErr: vfErrReset, wake: make(chan struct{}, 8), closed: make(chan struct{})}
+	return &vfBackend{failWriteAt: -1, movedAt: -1, writeErr: vfErrReset, wake: make(chan struct{}, 8), closed: make(chan struct{})}
 }
 
 func (b *vfBackend) Write(p []byte) (int, error) {
@@ -61,6 +63,9 @@ func (b *vfBackend) Read(p []byte) (int, error) {
 		}
 		if !b.silent && b.replied < b.got/vfReqLen {
 			b.replied++
+			if b.replied-1 == b.movedAt {
+				return copy(p, "-MOVED 1 "+b.movedTo+"\r\n"), nil
+			}
 			return copy(p, "+OK\r\n"), nil
 		}
 		if b.resetOnRead {
